@@ -292,3 +292,74 @@ theorem sbmlifyFn_sound (I : Interp) (env : VEnv) (f : PyFn) (m : MathML) (v : V
   · simp at hv
 
 end Mxl.C08
+
+namespace Mxl.C08
+
+/-- `IdentifierReplacer` touches identifiers only: when no parameter is used as a function / module name,
+    the renamed expression contains an unsupported construct iff the original does -/
+theorem hasUnsupported_rename (ps as : List String) :
+    ∀ e, calleeFree ps e = true → hasUnsupported (renameExpr (ps.zip as) e) = hasUnsupported e := by
+  refine (renameExpr.mutual_induct
+    (motive_1 := fun e => calleeFree ps e = true → hasUnsupported (renameExpr (ps.zip as) e) = hasUnsupported e)
+    (motive_2 := fun es => calleeFreeList ps es = true →
+      hasUnsupportedList (renameList (ps.zip as) es) = hasUnsupportedList es ∧
+      (renameList (ps.zip as) es).length = es.length)
+    (motive_3 := fun rest => calleeFreeLinks ps rest = true →
+      hasUnsupportedLinks (renameLinks (ps.zip as) rest) = hasUnsupportedLinks rest)
+    ?name ?const ?unary ?binop ?compare ?ifexp ?call ?attr ?attrDeep ?boolop ?callKw ?other
+    ?lnil ?lcons ?nil ?cons).1
+  case name => intro id _; simp [renameExpr, hasUnsupported, unsupportedNode]
+  case const => intro c _; simp [renameExpr]
+  case unary =>
+    intro op e ih hf
+    simp only [calleeFree] at hf
+    cases op <;> simp [renameExpr, hasUnsupported, unsupportedNode, ih hf]
+  case binop =>
+    intro op l r ihl ihr hf
+    simp only [calleeFree, Bool.and_eq_true] at hf
+    simp [renameExpr, hasUnsupported, unsupportedNode, ihl hf.1, ihr hf.2]
+  case compare =>
+    intro l op r rest ihl ihr ihrest hf
+    simp only [calleeFree, Bool.and_eq_true] at hf
+    simp [renameExpr, hasUnsupported, unsupportedNode, ihl hf.1.1, ihr hf.1.2, ihrest hf.2]
+  case ifexp =>
+    intro t b o iht ihb iho hf
+    simp only [calleeFree, Bool.and_eq_true] at hf
+    simp [renameExpr, hasUnsupported, iht hf.1.1, ihb hf.1.2, iho hf.2]
+  case call =>
+    intro f args ih hf
+    simp only [calleeFree, Bool.and_eq_true] at hf
+    have hc : renameCallee (ps.zip as) f = f := by
+      cases f with
+      | direct f' =>
+        simp only [calleeOk, Bool.not_eq_true'] at hf
+        simp [renameCallee, renameId_free hf.1]
+      | lib p a =>
+        simp only [calleeOk, Bool.not_eq_true'] at hf
+        simp [renameCallee, renameId_free hf.1]
+      | libDeep => rfl
+      | other => rfl
+    obtain ⟨h1, h2⟩ := ih hf.2
+    simp only [renameExpr, hasUnsupported, hc, h1]
+    cases f <;> simp [unsupportedNode, h2]
+  case attr =>
+    intro p a hf
+    simp only [calleeFree, Bool.not_eq_true'] at hf
+    simp [renameExpr, renameId_free hf]
+  case attrDeep => intro _; simp [renameExpr]
+  case boolop => intro b vals _ _; simp [renameExpr, hasUnsupported, unsupportedNode]
+  case callKw => intro _; simp [renameExpr]
+  case other => intro _; simp [renameExpr]
+  case lnil => intro _; simp [renameLinks]
+  case lcons =>
+    intro op e rest ihe ihrest hf
+    simp only [calleeFreeLinks, Bool.and_eq_true] at hf
+    simp [renameLinks, hasUnsupportedLinks, ihe hf.1, ihrest hf.2]
+  case nil => intro _; simp [renameList]
+  case cons =>
+    intro e es ihe ihes hf
+    simp only [calleeFreeList, Bool.and_eq_true] at hf
+    obtain ⟨h1, h2⟩ := ihes hf.2
+    simp [renameList, hasUnsupportedList, ihe hf.1, h1, h2]
+
+end Mxl.C08
